@@ -55,6 +55,7 @@ REQUIRED_TAGS = ["table", "journal", "manifest", "t-pristine", "t-open-err", "t-
 # (table-index:length-lt-checksum-size, table-index:ordinal-ge-count, table-index:length-gt-iterate-buffer,
 #  journal-record:short-field-valid-crc, manifest:root-hash-malformed) are NOT matched any more: a panic is a violation.
 # repaired in e8df418 and no longer matched: archive-index:chunk-ref-unchecked, archive-index:span-length-unchecked, archive-footer:counts-unchecked
+KEY_A_GM = "archive-getmany:span-unchecked"      # planReads / fetchBatch still use the unchecked getByteSpanByID (errgroup goroutine)
 KEY_A_SWAP = "archive-index:chunk-ref-redirected-valid-crc"
 KEY_A_ITER = "archive-index:iterate-address-from-corrupt-index"
 KEY_SWAP = "table-file:record-replaced-valid-crc"
@@ -604,6 +605,9 @@ def attribute(case, out, kind, msg):
         return None
     if is_archive and kind == "misread":
         return KEY_A_SWAP if msg == "get" else KEY_A_ITER
+    if is_archive and kind == "panic" and msg.startswith("getmany:") and any(
+            x in msg for x in ("out of memory", "makeslice", "expected true", "slice bounds out of range", "cannot allocate")):
+        return KEY_A_GM
     return None
 
 
@@ -646,6 +650,8 @@ def classify(case, out):
         t.append("a-iter-" + o["iter"])
         if 3 in (o.get("extra") or []):
             t.append("a-extras-crash")
+        if o["getmany"] == "crash":
+            t.append("a-gm-crash")
         for kind, msg in evidence(case, out):
             t.append("finding:" + (attribute(case, out, kind, msg) or "UNATTRIBUTED"))
     elif k == "store":
